@@ -2,7 +2,10 @@ module verif/harness
 
 go 1.21
 
-require github.com/elliotchance/gedcom/v39 v39.0.0
+require (
+	github.com/elliotchance/gedcom/v39 v39.0.0
+	golang.org/x/net v0.17.0
+)
 
 require golang.org/x/text v0.14.0 // indirect
 
